@@ -53,6 +53,24 @@ class Fact:
     extra: dict = field(default_factory=dict)
 
 
+_NEG_OP = {"NotEq": "Eq", "NotIn": "In", "IsNot": "Is"}
+
+
+def norm_guard(g):
+    """(condition, polarity) with the condition in positive form: `not c` and !=, not in, is not are folded into the polarity,
+    so that `if a != b: X` and `if a == b: ... else: X` give X the same guard."""
+    c, pol = g
+    for _ in range(4):
+        if isinstance(c, tuple) and len(c) == 3 and c[0] == "unop" and c[1] == "Not":
+            c, pol = c[2], not pol
+            continue
+        if isinstance(c, tuple) and len(c) == 3 and c[0] == "cmp" and len(c[1]) == 1 and c[1][0] in _NEG_OP:
+            c, pol = ("cmp", (_NEG_OP[c[1][0]],), c[2]), not pol
+            continue
+        break
+    return (c, pol)
+
+
 class Flow:
     def __init__(self, func: ast.FunctionDef, file: str = "", consts: dict | None = None,
                  self_name: str | None = None, keep_arms: bool = False, resolver=None, _depth: int = 0, _env: dict | None = None):
@@ -112,10 +130,13 @@ class Flow:
         return acc
 
     # ---- helpers --------------------------------------------------------
+    def _guards(self):
+        return tuple(norm_guard(g) for g in self.guards)
+
     def fact(self, kind, target, index, op, value, node, **extra):
         if kind in ("store", "augstore", "append", "remove", "mutate") and isinstance(target, str):
             self._mutated.add(target)
-        f = Fact(kind, target, index, op, value, tuple(self.loops), tuple(self.guards),
+        f = Fact(kind, target, index, op, value, tuple(self.loops), self._guards(),
                  getattr(node, "lineno", 0), next(self._seq), node, extra)
         self.facts.append(f)
         return f
@@ -304,7 +325,7 @@ class Flow:
             if target.id in self.acc:
                 self.fact("init", target.id, None, "=", value, node)
             self.assigns.setdefault(target.id, []).append(
-                (value, tuple(self.loops), tuple(self.guards), getattr(node, "lineno", 0), next(self._seq)))
+                (value, tuple(self.loops), self._guards(), getattr(node, "lineno", 0), next(self._seq)))
             self.env[target.id] = value
         elif isinstance(target, (ast.Tuple, ast.List)):
             star = [i for i, e in enumerate(target.elts) if isinstance(e, ast.Starred)]
